@@ -5,24 +5,11 @@
    descent_sync), is the decision of the model's `enter_one` (Model/Exec.v). *)
 From XSM Require Import Model.TreeLib Gen.GenGeom.
 
-Definition model_descent (m : machine) (l : list nat) (x : nat) : descent_decision :=
-  match kind_of m x with
-  | KCompound =>
-      match n_initial (nd m x) with
-      | Some i => if mem x (parents_of m l) then DescendNone else DescendInto [i]
-      | None => match children m x with [] => DescendNone | _ => DescendError end
-      end
-  | KParallel =>
-      match filter (fun c => negb (is_history m c) && negb (mem c (with_parent m l))) (children m x) with
-      | [] => DescendNone
-      | regions => DescendInto regions
-      end
-  | _ => DescendNone
-  end.
+Definition model_descent (m : machine) (l : list nat) (x : nat) : descent_decision := descent_of m l x.
 
 Theorem descent_async_bridge m l x : descent_async m l x = model_descent m l x.
 Proof.
-  unfold descent_async, model_descent, is_compound, is_parallel. cbn zeta.
+  unfold descent_async, model_descent, descent_of, is_compound, is_parallel. cbn zeta.
   destruct (kind_of m x); cbn [andb]; try reflexivity.
   - destruct (n_initial (nd m x)); cbn [is_some]; [reflexivity|]. now destruct (children m x).
   - now destruct (filter _ (children m x)).
@@ -30,7 +17,7 @@ Qed.
 
 Theorem descent_sync_bridge m l x : descent_sync m l x = model_descent m l x.
 Proof.
-  unfold descent_sync, model_descent, is_compound, is_parallel. cbn zeta.
+  unfold descent_sync, model_descent, descent_of, is_compound, is_parallel. cbn zeta.
   destruct (kind_of m x); cbn [andb]; try reflexivity.
   - destruct (n_initial (nd m x)); cbn [is_some]; [reflexivity|]. now destruct (children m x).
   - now destruct (filter _ (children m x)).
@@ -49,7 +36,7 @@ Lemma enter_one_decides eng pr m rec l ev x :
    | DescendError => raise EInvalidConfig
    end).
 Proof.
-  unfold enter_one, model_descent.
+  unfold enter_one, model_descent, descent_of.
   destruct (kind_of m x); try reflexivity.
   - destruct (n_initial (nd m x)); [now destruct (mem x (parents_of m l))|]. now destruct (children m x).
   - now destruct (filter _ (children m x)).
@@ -61,7 +48,7 @@ Lemma regions_in_document_order m l x rs :
   kind_of m x = KParallel -> model_descent m l x = DescendInto rs ->
   rs = filter (fun c => negb (is_history m c) && negb (mem c (with_parent m l))) (children m x).
 Proof.
-  unfold model_descent. intros Hk. rewrite Hk.
+  unfold model_descent, descent_of. intros Hk. rewrite Hk.
   destruct (filter _ (children m x)) eqn:E; [discriminate|]. intros H. now inversion H.
 Qed.
 
